@@ -3452,6 +3452,14 @@ impl G {
       inv_names.push(n);
     }
 
+    // a mode parameter that ends the loop early: with a literal argument the test folds after inlining,
+    // and an exit in the middle of the body becomes an unconditional one
+    let early = if self.rng.chance(if loops_prof { 2 } else { 1 }, 6) { Some(self.rng.below(3) as i64) } else { None };
+    if early.is_some() {
+      params.push(("md".into(), Ty::Int, (0, 2)));
+      cx.push("md", &Ty::Int, (0, 2));
+    }
+
     self.begin_fn();
     let mut pre: Vec<String> = vec![];
     // a loop-invariant expression computed in every iteration
@@ -3592,6 +3600,9 @@ impl G {
     } else {
       rec_args.extend(inv_names.iter().cloned());
     }
+    if early.is_some() {
+      rec_args.push("md".into());
+    }
     body.push(format!("{cname}.{name}({})", rec_args.join(", ")));
     // exit value
     let (ret_ty, exit_txt, rr): (Ty, String, R) = match acc_kind {
@@ -3629,19 +3640,32 @@ impl G {
         // (k is halved: not an induction variable the loop optimiser can solve, so the inner loop stays)
         self.classes[ci].members.push("function idl(x: int, k: int): int = if k <= 0 { x } else { ".to_string() + cname + ".idl(x, k / 2) }");
       }
+      if !self.classes[ci].members.iter().any(|m| m.starts_with("function idm(")) {
+        // the same with a mode that ends the loop early: called with a literal mode, the test folds once the
+        // helper is inlined and the helper's loop keeps a conditional exit in front of an unconditional one
+        self.classes[ci].members.push("function idm(x: int, k: int, md: int): int = if k <= 0 { x } else if md == 1 { x } else { ".to_string() + cname + ".idm(x, k / 2, md) }");
+      }
       self.feat("loop-guard-inner-loop");
       // the trip count of the inner loop depends on run-time data (a literal would be solved at compile time)
-      if n_idx.is_some() && self.rng.chance(1, 2) {
-        format!("{cname}.idl(i, n)")
+      let k = if n_idx.is_some() && self.rng.chance(1, 2) { "n" } else { "i" };
+      if self.rng.chance(1, 2) {
+        self.feat("loop-guard-inner-loop-mode");
+        format!("{cname}.idm(i, {k}, {})", self.rng.below(3))
       } else {
-        format!("{cname}.idl(i, i)")
+        format!("{cname}.idl(i, {k})")
       }
     } else {
       "i".to_string()
     };
     let gtxt = if self.rng.chance(1, 4) { format!("{btxt} {} {gi}", mirror_op(written)) } else { format!("{gi} {written} {btxt}") };
-    let rec_block = format!("{{\n{}\n}}", body.join("\n"));
     let exit_block = format!("{{ {exit_txt} }}");
+    let rec_block = match early {
+      Some(c) => {
+        self.feat("loop-early-exit-invariant");
+        format!("{{\nif md == {c} {exit_block} else {{\n{}\n}}\n}}", body.join("\n"))
+      }
+      None => format!("{{\n{}\n}}", body.join("\n")),
+    };
     let ife = if exit_first { format!("if {gtxt} {exit_block} else {rec_block}") } else { format!("if {gtxt} {rec_block} else {exit_block}") };
     let fbody = if pre.is_empty() { ife } else { format!("{{\n{}\n{ife}\n}}", pre.join("\n")) };
     let (level, cost, pure) = self.end_fn();
@@ -3754,6 +3778,9 @@ impl G {
         args.push(e);
       } else if Some(idx) == spec.s {
         args.push(self.point(if spec.sneg { -eff_stride } else { eff_stride }).s);
+      } else if sig.params[idx].0 == "md" && self.rng.chance(2, 3) {
+        // a literal mode: the early-exit test is decided at compile time once the loop is inlined
+        args.push(lit(self.rng.below(3) as i64));
       } else {
         args.push(self.gen(t, cx, d.min(2), *r).s);
       }
